@@ -13,6 +13,8 @@ REPO = os.environ.get('VERIF_REPO', '/repo')
 # (VERIF_REPO) so that evidence/ of the real tree is not touched.
 OUT = os.environ.get('VERIF_SCRATCH', VERIF)
 BUILD = os.path.join(OUT, 'build')
+# helper binaries (recorder, ptrace executors, batch runner) are built per process: several checks may run at the same time
+AUX = os.path.join(BUILD, 'aux-%d' % os.getpid())
 NCPU = int(os.environ.get('VERIF_JOBS', str(os.cpu_count() or 4)))
 
 CLEAN_ENV = {'PATH': '/usr/local/bin:/usr/bin:/bin', 'LC_ALL': 'C', 'TZ': 'UTC', 'HOME': '/root'}
@@ -74,7 +76,7 @@ class Check:
         self.cov = {}
         self.assumptions = []
         self.capped = False
-        self.workdir = os.path.join(BUILD, 'run-' + pid)
+        self.workdir = os.path.join(BUILD, 'run-%s-%d' % (pid, os.getpid()))
         self.replay_dir = os.path.join(OUT, 'replays', pid)
         self._nrep = 0
         shutil.rmtree(self.workdir, ignore_errors=True)
@@ -144,6 +146,10 @@ class Check:
                   (self.id, len(self.violations), len(seen)))
         else:
             shutil.rmtree(self.workdir, ignore_errors=True)
+        if not self.violations:
+            import glob
+            for d in glob.glob(os.path.join(BUILD, '*-%d' % os.getpid())):
+                shutil.rmtree(d, ignore_errors=True)
         print('%s %s: %s wall=%.1fs %s' % (self.id, self.tier,
               'VIOLATED' if self.violations else 'held', time.time() - self.t0,
               json.dumps({k: v for k, v in c.items() if isinstance(v, (int, float, bool))})))
